@@ -932,7 +932,7 @@ where
                 self.deques.unlink_ao(&mut entry);
                 Deques::unlink_wo(&mut self.deques.write_order, &mut entry);
                 evicted_entry_count += 1;
-                evicted_policy_weight = evicted_policy_weight.saturating_sub(weight as u64);
+                evicted_policy_weight = evicted_policy_weight.saturating_add(weight as u64);
             } else {
                 self.deques.write_order.pop_front();
             }
